@@ -113,6 +113,25 @@ def load_all(ctx, rows, n, variant, cache):
         bad_shape = data.ndim != 2 or (data.ndim == 2 and data.shape[1] != COLS)
         obs.append(dict(i=i, nrows=int(data.shape[0]) if data.ndim >= 1 else 0, naxis2=int(hdr['NAXIS2']),
                         lo_hdr=float(lo_hdr), data=data, hdr=hdr, bad_shape=bad_shape, shape=tuple(data.shape)))
+    # returned objects must be the caller's own: writing into a returned band (as Aegean itself does with
+    # rms/bkg maps) or header must not change what a later load of the unchanged file returns
+    for i in sorted({0, n - 1}):
+        kw = dict(cube_index=1) if base_variant(variant) in ('3d', '4d') else {}
+        if variant in EXT_VARIANTS:
+            kw['hdu_index'] = 1
+        d1, h1 = fits_tools.load_image_band(path, band=(i, n), **kw)
+        keep = np.array(d1, copy=True)
+        crpix = h1['CRPIX2']
+        try:
+            d1[...] = -12345.0
+        except (ValueError, TypeError):
+            pass        # read-only result: cannot be aliased through writes
+        h1['CRPIX2'] = 99999.0
+        d2, h2 = fits_tools.load_image_band(path, band=(i, n), **kw)
+        if not (np.array_equal(np.array(d2), keep, equal_nan=True) and h2['CRPIX2'] == crpix):
+            obs[i]['aliased'] = (f"after writing into the array/header returned for band {i}/{n}, loading the same band of "
+                                 f"the unchanged file again returns the edited values (first pixel {np.array(d2).ravel()[:1].tolist()}, "
+                                 f"CRPIX2 {h2['CRPIX2']})")
     return obs, full, fhdr
 
 
@@ -136,7 +155,9 @@ def judge(ctx, rows, n, variant, obs, full, fhdr, model_lines, spec_line, check_
         m_lo = -m_shift
         # --- Spec-level facts about the implementation's own output ---
         spec_bad = None
-        if o.get('bad_shape'):
+        if o.get('aliased'):
+            spec_bad = o['aliased']
+        elif o.get('bad_shape'):
             spec_bad = f"band has shape {o['shape']}, expected (rows, {COLS})"
         elif abs(o['lo_hdr'] - lo) > 1e-9:
             spec_bad = f"CRPIX2 shift {o['lo_hdr']} is not an integer row offset"
@@ -149,7 +170,7 @@ def judge(ctx, rows, n, variant, obs, full, fhdr, model_lines, spec_line, check_
             spec_bad = f"band values are not rows [{lo},{hi}) of the full image (header/data disagree)"
         if spec_bad:
             ctx.fail('spec', dict(case, i=i), spec_bad + f"; model expects rows [{m_lo},{m_lo + m_naxis2})",
-                     dict(site='load_image_band', what='band-values-or-header', variant=variant))
+                     dict(site='load_image_band', what=('result-aliased' if o.get('aliased') else 'band-values-or-header'), variant=variant))
             ok = False
             continue
         # --- correspondence with the model ---
@@ -237,6 +258,21 @@ def invalid_cases(ctx):
     from AegeanTools.exceptions import AegeanError
     path, _ = make_file(ctx, 6, '2d')
     specs = [(-1, 3), (3, 3), (4, 3), (0, 0), (0, -1), (-2, -1), (5, 2), (0, 1), (2, 3), (-1, 0)]
+    # numpy scalar / array forms of invalid (fractional or negative) specifications must be rejected too
+    np_specs = [(np.float64(0.5), 2), (np.float64(-0.5), 2), (np.float32(2.25), 4), tuple(np.arange(1, 3) / 2.0),
+                np.array([1.5, 3.0]), (np.float64(1.5), np.int64(3)), (np.int64(-1), np.int64(3)), (np.int16(3), np.int16(3))]
+    for b in np_specs:
+        try:
+            fits_tools.load_image_band(path, band=b)
+            got = 'ok'
+        except Exception:
+            got = 'err'
+        case = dict(rows=6, band=[float(x) for x in b], numpy_types=[type(x).__name__ for x in b])
+        if got != 'err':
+            ctx.fail('spec', case, f"invalid band specification {b!r} (numpy scalars) was accepted",
+                     dict(site='load_image_band', what='validation', numpy_spec=True))
+        ctx.count('invalid-spec-numpy')
+        ctx.case(case, nontrivial_key=('npband', str(b)))
     lines = [f"load 6 {i} {n}" for i, n in specs]
     outs = ctx.driver.batch(lines) if ctx.driver_ok else [None] * len(specs)
     for (i, n), ml in zip(specs, outs):
@@ -286,6 +322,25 @@ def run(ctx):
     cases = case_set(ctx, wide=not ctx.quick)
     run_cases(ctx, cases)
     invalid_cases(ctx)
+    # debug slice: the same corpus with the root and 'Aegean' loggers at DEBUG must behave identically
+    import logging
+    root, aeg = logging.getLogger(), logging.getLogger('Aegean')
+    saved = (root.level, aeg.level, list(root.handlers))
+    try:
+        root.handlers = [logging.NullHandler()]
+        root.setLevel(logging.DEBUG)
+        aeg.setLevel(logging.DEBUG)
+        n0 = len(ctx.failures)
+        run_cases(ctx, list(CORPUS), check_wcs_every=3)
+        for f in ctx.failures[n0:]:
+            f['signature'] = dict(f.get('signature') or {}, logging='DEBUG')
+            if isinstance(f.get('case'), dict):
+                f['case']['logging'] = 'DEBUG'
+        ctx.count('debug-slice', len(CORPUS))
+    finally:
+        root.setLevel(saved[0])
+        aeg.setLevel(saved[1])
+        root.handlers = saved[2]
 
 
 def search(ctx):
